@@ -4,7 +4,7 @@ CONSTANT SetPws = {"p1", "p2", ""}
 CONSTANT TryPws = {"p1", "p2", "", "wrong"}
 CONSTANT Presenters = {1, 2}
 CONSTANT EpochIds = {1, 2, 3, 4, 5}
-CONSTANT MaxSteps = 5
+CONSTANT MaxSteps = 6
 CONSTANT Ops <- AllOps
 CONSTANT SessChecksDisabled = TRUE
 SPECIFICATION Spec
